@@ -29,7 +29,7 @@ ASSUMPTIONS = ['comparison is with the frame as it was when saved (a derived fra
                'blimpy container conventions (f_start/f_stop as band edges) are not judged: get_waterfall() is judged by its header and data only']
 STARTS = ['synthetic', 'from_data', 'shape', 'loaded_fil', 'loaded_h5', 'loaded_fsel', 'loaded_tsel', 'loaded_foreign']
 OPS = ['add_noise', 'add_signal', 'get_waterfall', 'copy', 'save_fil', 'save_h5', 'reload_fil', 'reload_h5', 'get_slice', 'dedrift', 'pickle',
-       'other_frame', 'retime', 'retune', 'rewrap']
+       'other_frame', 'retime', 'retune', 'rewrap', 'rebind', 'failed_save']
 
 
 def required(tier):
@@ -345,6 +345,26 @@ def _run(stg, c, d, R):
                 ancestors.append(fr)
                 fr = g2
                 derived = True
+            elif op == 'rebind':
+                # the frame's data REPLACED by a new array (normalised copy, zero_data, load_npy, plain assignment) after it may
+                # already have been saved or turned into a Waterfall: what is saved afterwards is what the frame holds now
+                if o['a'] < 0.3:
+                    fr.zero_data()
+                    fr.data += marker(rng, fr.tchans, fr.fchans)
+                else:
+                    fr.data = marker(rng, fr.tchans, fr.fchans)
+            elif op == 'failed_save':
+                # a save that cannot succeed (no such directory), caught by the caller, who then carries on with the same frame
+                bad = os.path.join(d, 'no', 'such', 'dir', 'x.' + ('fil' if o['a'] < 0.5 or not h5_ok(fr) else 'h5'))
+                snap = snapshot(fr)
+                try:
+                    (fr.save_fil if bad.endswith('.fil') else fr.save_h5)(bad)
+                    R.count('failed_save_did_not_fail')
+                except Exception:  # noqa
+                    R.count('failed_saves')
+                after = snapshot(fr)
+                R.check(np.array_equal(after['data'], snap['data']) and after['source_name'] == snap['source_name']
+                        and after['t_start'] == snap['t_start'], 'failed-save-changed-the-frame')
             elif op == 'pickle':
                 p = newpath('pickle')
                 fr.save_pickle(p)
